@@ -1,7 +1,8 @@
 #!/usr/bin/env python3
 """bin/check Cxx [--tier quick|thorough] [--replay file]   (DESIGN.md §2.7)
 
- 1 regenerate the generated Lean model from /repo (translator, tie 1)
+ 1 regenerate the generated Lean model from /repo (translator, tie 1; plus the property module's
+   own `pre_build(ctx)` translator hook, if any)
  2 build the property's theorem modules and the driver (lake; Lean kernel checks the proofs)
  3 audit: axioms of every theorem of the property's namespace; forbidden-token grep
  4 correspondence (tie 2): generated model / hand model vs the real code
@@ -88,16 +89,44 @@ def regenerate(ctx):
     return r
 
 
+def name_theorems(errs):
+    """Append to each `error: <file>:<line>:<col>: ...` line the theorem/def the line lies in."""
+    out = []
+    for e in errs:
+        m = re.match(r'error: (\S+?\.lean):(\d+):\d+:', e)
+        if m:
+            try:
+                lines = open(os.path.join(LEAN, m.group(1)), encoding='utf-8').read().split('\n')
+                for k in range(min(int(m.group(2)), len(lines)) - 1, -1, -1):
+                    d = re.match(r'\s*(?:@\[[^\]]*\]\s*)?(?:private\s+|protected\s+)?(theorem|lemma|def|example|instance)\b\s*(\S*)', lines[k])
+                    if d:
+                        e = '%s  [in %s %s]' % (e, d.group(1), d.group(2))
+                        break
+            except Exception:
+                pass
+        out.append(e)
+    return out
+
+
 def build(ctx, modules, need_driver=True, gen_ok=True):
     """Build theorem modules one by one (so one broken module does not hide the others) and the
     driver.  Returns dict module -> (ok, log)."""
     res = {}
     targets = list(modules)
-    for m in targets:
+    all_ok = False
+    if len(targets) > 1:
+        # one lake invocation when everything checks (the common case); one per module otherwise,
+        # so that one broken module does not hide the others
+        rc, out = lake(['build'] + targets)
+        all_ok = rc == 0
+        if all_ok:
+            for m in targets:
+                res[m] = (True, out)
+    for m in ([] if all_ok else targets):
         rc, out = lake(['build', m])
         res[m] = (rc == 0, out)
         if rc != 0:
-            errs = [l for l in out.split('\n') if l.startswith('error:')]
+            errs = name_theorems([l for l in out.split('\n') if l.startswith('error:')])
             ctx.broken.append(dict(kind='proof', what='Lean module %s no longer checks' % m,
                                    detail='\n'.join(errs[:12]) or out[-1500:], module=m))
     if need_driver:
@@ -316,8 +345,10 @@ def run_check(ctx, mod):
             ctx.stats['discharged'] = 0
         expected = getattr(mod, 'EXPECTED_THEOREMS', [])
         have = set(ctx.stats.get('theorems', []))
+        failed = [m for m in mod.LEAN_MODULES if m not in ok_mods]
         for t in expected:
-            if t not in have:
+            # (a theorem of a module that did not build is already reported through that module)
+            if t not in have and not any(t.startswith(m + '.') for m in failed):
                 ctx.broken.append(dict(kind='proof', what='property theorem %s is missing' % t, detail=''))
         if ctx.tier == 'thorough' and ok_mods:
             leanchecker(ctx, ok_mods)
